@@ -8,7 +8,7 @@ From RT Require Import Model.StackTrace Model.StackProto Proofs.StackInvProofs.
 Import ListNotations.
 
 Theorem C05_integrity : forall size_oracle attempts tabs scripts sched,
-  init_ok tabs -> Forall (fun s => forallb modelled s = true) scripts ->
+  init_ok tabs ->
   c05_ok (trace_of size_oracle attempts tabs scripts sched) = true.
 Proof. exact c05_all_traces. Qed.
 Print Assumptions C05_integrity.
